@@ -133,9 +133,19 @@ def gen_corr(rng, k):
     return "pd", out
 
 
+def equalize(rng, sources):
+    """distinct measurements with EQUAL central values (their identity, not their value, decides what is correlated)"""
+    singles = [s for s in sources if s["kind"] == "single"]
+    if len(singles) >= 2 and rng.random() < 0.3:
+        v = singles[0]["value"]
+        for s in (singles if rng.random() < 0.5 else singles[:2]):
+            s["value"] = v
+
+
 def gen_case(rng, seed):
     k = rng.choice([1, 2, 2, 2, 3, 3, 3])
     sources = [mc.gen_source(rng, repeated_ok=True, positive_error=True) for _ in range(k)]
+    equalize(rng, sources)
     small = any(s["kind"] == "repeated" for s in sources)
     kind, corr_pos = gen_corr(rng, k)
     # a division is only used where the draws are dyadic (no correlation applied): with a rational, non-dyadic factor a
@@ -148,7 +158,7 @@ def gen_case(rng, seed):
             "g": rng.choice([4, 5, 6, 8] if small else [4, 6, 8, 12, 16]),
             "sources": sources, "corr": [], "corr_pos": corr_pos, "corr_kind": kind,
             "defs": mc.gen_defs(rng, k, allow_div=allow_div, depth=2 if (small or k == 3) else 3, require_all=True),
-            "method": rng.choice(["global", "own"]), "small": small}
+            "method": rng.choice(["global", "own"]), "small": small, "pre_read": rng.random() < 0.4}
     if allow_div:
         case["okind"] = rng.choice(["coarse", "coarse", "uniform"])
     rv, re_, sa = ["read_value"], ["read_error"], ["samples"]
@@ -180,6 +190,11 @@ def features(case, run):
         tags.add("division")
     if any(s["kind"] == "repeated" for s in case["sources"]):
         tags.add("readings-source")
+    if case.get("pre_read") and len(case["defs"]) > 1:
+        tags.add("intermediate-read-before-use")
+    vals = [s["value"] for s in case["sources"] if s["kind"] == "single"]
+    if len(set(vals)) < len(vals):
+        tags.add("equal-central-values")
     size = None
     for o, (ob, w1, w2) in zip(case["ops"], run["obs"]):
         if ob[0] == "info":
@@ -263,17 +278,19 @@ class DesignScript:
 
 
 class SameRowScript:
-    """every call of one draw returns the same dyadic offsets (so that the assignment of rows to sources is immaterial)"""
+    """every call of one simulation returns the same dyadic offsets (so that the assignment of rows to sources is
+    immaterial); the harness names the simulation that is about to run ([current]), different simulations get
+    different offsets"""
 
-    def __init__(self, seed, k, kind):
-        self.seed, self.k, self.kind, self.calls = seed, max(1, k), kind, []
+    def __init__(self, seed, kind):
+        self.seed, self.kind, self.calls, self.current = seed, kind, [], "start"
 
     def row(self, draw, n):
         return mc.gen_offsets(self.kind, random.Random("{}:{}".format(self.seed, draw)), n)
 
     def __call__(self, loc=0.0, scale=1.0, size=None):
         n = int(size)
-        arr = self.row(len(self.calls) // self.k, n)
+        arr = self.row(self.current, n)
         self.calls.append(arr)
         return np.array(arr, dtype=float)
 
@@ -354,6 +371,7 @@ def gen_design_case(rng):
         rho[(i, j)] = rho[(j, i)] = Fraction(num, den)
     # the covariance of the draws does not depend on the order of the sources: positions are used as creation indices
     sources = [mc.gen_source(rng, repeated_ok=True, positive_error=True) for _ in range(k)]
+    equalize(rng, sources)
     return {"sources": sources, "corr": corr_pos, "pd": minors_pd(k, rho),
             "coef": [fx(rng.choice([1.0, -1.0, 2.0, 0.5, -1.5, 3.0])) for _ in range(k)],
             "const": fx(rng.choice([0.0, 1.0, -2.5])), "size_mode": rng.choice(["global", "own"])}
@@ -363,8 +381,7 @@ def check_samerow(case):
     """uncorrelated sources, every source receives the same offsets: samples must be f(v_i + error_i * z_n), undefined
     outcomes dropped, value / error their mean and ddof-1 standard deviation"""
     q = mc._q()
-    k = len(mc.tree_vars(case["defs"][-1], case["defs"]))     # normal() is called once per source the formula uses
-    script = SameRowScript(case["seed"], k, case["okind"])
+    script = SameRowScript(case["seed"], case["okind"])
     with warnings.catch_warnings():
         warnings.simplefilter("ignore")
         with mc.patched_normal(script):
@@ -377,10 +394,21 @@ def check_samerow(case):
                 for d in case["defs"]:
                     objs.append(mc.build_value(d, meas, objs))
                 res = objs[-1]
-                N = case["g"]
+                N = case["own"] if case.get("own") else case["g"]
+                if case.get("pre_read"):
+                    # intermediate results are read (simulated, with the same sample size) BEFORE the final formula:
+                    # the final simulation must evaluate them on ITS joint draws, not reuse their buffered samples
+                    import qexpy.data.data as dt
+                    for j, o_ in enumerate(objs[:-1]):
+                        if isinstance(o_, dt.DerivedValue):
+                            script.current = "intermediate{}".format(j)
+                            if case.get("own"):
+                                o_.mc.sample_size = case["own"]
+                            _ = o_.value, o_.error
+                script.current = "warm-up"
                 if case.get("own"):
                     res.mc.sample_size = case["own"]
-                    N = case["own"]
+                script.current = "final"
                 try:
                     value, error = res.value, res.error
                     S = [float(x) for x in res.mc.samples()]
@@ -391,8 +419,7 @@ def check_samerow(case):
                 sd = [Fraction(float(m.std)) for m in meas]
             finally:
                 mc.reset_globals()
-    draw = (len(script.calls) // k) - 1
-    row = [Fraction(z) for z in script.row(draw, N)]
+    row = [Fraction(z) for z in script.row("final", N)]
     if len(script.calls[-1]) != N:
         return "the last simulation drew {} offsets per source, configured size is {}".format(len(script.calls[-1]), N)
     want = []
@@ -430,7 +457,11 @@ def gen_samerow_case(rng, seed):
             "g": rng.choice([6, 10, 16, 40]),
             "sources": [mc.gen_source(rng, repeated_ok=True, positive_error=True) for _ in range(k)],
             "defs": mc.gen_defs(rng, k, allow_div=allow_div, depth=3, require_all=False),
-            "own": rng.choice([None, None, 7, 25])}
+            "own": rng.choice([None, None, 7, 25]), "pre_read": rng.random() < 0.5}
+    if case["pre_read"] and len(case["defs"]) == 1 and rng.random() < 0.7:
+        # make sure there IS an intermediate result that shares a source with the final formula
+        inner = case["defs"][0]
+        case["defs"] = [inner, [rng.choice(["sub", "add", "mul"]), ["ref", 0], ["var", rng.randrange(k)]]]
     return case
 
 
